@@ -240,6 +240,48 @@ func c02Hostile(rng *rand.Rand) c02Case {
 	return cs
 }
 
+// c02TinyFields: every string of up to three characters over a numeric-looking alphabet, as an
+// input field, a -v style variable and a getline variable, put to every use that parses or
+// classifies its text (comparison, truth, arithmetic, subscript, printf, substr, index, split
+// separator, regex).
+func c02TinyFields() []c02Case {
+	const alphabet = "-+0.1eEx a"
+	var all []string
+	var gen func(prefix string, n int)
+	gen = func(prefix string, n int) {
+		all = append(all, prefix)
+		if n == 0 {
+			return
+		}
+		for i := 0; i < len(alphabet); i++ {
+			gen(prefix+string(alphabet[i]), n-1)
+		}
+	}
+	gen("", 3)
+	progs := []string{
+		`{ a = ($1 < 1); b = ($1 == $2); if ($1) c++; d = $1 + 0; e = !$1; f = ($1 >= $2); g = ($1 != 0); h = ($2 > $1 ? $1 : $2); i = -$1; j = $1 ^ 2; k = int($1); l = ($1 < "a"); m = ($1 == "") }
+END { print NR, c, a b e f g h i j k l m }`,
+		`{ A[$1] = $2; if (($1, $2) in A) z++; s = substr("hello world", $1, $2); t = sprintf("%d %i %c %s %5.2f %e %x %o %u", $1, $2, $1, $1, $1, $1, $1, $1, $1); u = index($1, $2); v = length($1) }
+END { n = 0; for (k in A) n++; print NR, n, z, length(t) }`,
+		`{ if (index($0, "+") == 0) { n = split("a b" $1 "c", P, $1); m = ($0 ~ $1 "*"); gsub($2, "[&]"); r = match($0, "^" $2) } $3 = $1; NF = NF; x = $1 $2; y = x + 0; q = (x < $1); if (!(NR % 97)) print n, m, r, y, q }
+END { print NR }`,
+		`BEGIN { FS = "," } { while ((getline line < "nofile") > 0) ; w = $1; w++; w += $2; w = w ""; if (w < 5) lo++; CONVFMT = "%.3g"; v = ($1 + 0.1) ""; OFMT = "%.2f"; if (!(NR % 89)) print $1 + 0, v, w }
+END { print NR, lo }`,
+	}
+	var out []c02Case
+	const per = 250
+	for pi, prog := range progs {
+		for start := 0; start < len(all); start += per {
+			var sb strings.Builder
+			for k := start; k < start+per && k < len(all); k++ {
+				sb.WriteString(all[k] + "," + all[(k*7+pi)%len(all)] + "\n")
+			}
+			out = append(out, c02Case{Gen: "tiny-fields", Src: prog + "\n", Stdin: []byte(sb.String()), Vars: []string{"FS", ","}, Chars: (start/per)%2 == 1})
+		}
+	}
+	return out
+}
+
 // c02Named: the three situations the property names must end in an error value.
 func c02Named() []c02Case {
 	var out []c02Case
@@ -386,13 +428,19 @@ func init() {
 		NBatches: func(t core.Tier) int { return n(t, 16, 64) },
 		Race:     func(t core.Tier) bool { return t == core.Thorough },
 		Floors: func(t core.Tier) map[string]int {
-			return map[string]int{"evaluations": n(t, 300000, 700000), "distinct_nontrivial": n(t, 100000, 250000), "gen_hostile": n(t, 8000, 90000), "gen_named-error": 40, "gen_deep-recursion": 70, "gen_splitter": 100000, "error_messages": 30}
+			return map[string]int{"evaluations": n(t, 300000, 700000), "distinct_nontrivial": n(t, 100000, 250000), "gen_hostile": n(t, 8000, 90000), "gen_named-error": 40, "gen_tiny-fields": 16, "gen_deep-recursion": 70, "gen_splitter": 100000, "error_messages": 30}
 		},
 		Run: func(c *core.Ctx) {
 			rng := c.Rand("cases")
 			for i, cs := range c02Named() {
 				if c.Mine(i) {
 					c02Check(c, cs)
+				}
+			}
+			for i, cs := range c02TinyFields() {
+				if c.Mine(i) {
+					c02Check(c, cs)
+					c.Count("gen_tiny-fields", 1)
 				}
 			}
 			c02Splitters(func(i int, cs c02Case) {
